@@ -97,4 +97,25 @@ theorem errSet_steps (s s' : State) (h : Reach s) (hs : Steps s s') : s.errSet =
     intro he
     exact errSet_mono s' s'' t (reach_inv s' (reach_steps s s' h hss)) hst (ih he)
 
+/-! relations between classifiers used by the property theorems -/
+
+theorem pastStore_wErr (p : PC) : pastStore p = true → ∃ e, wErr p = some e := by
+  cases p <;> simp [pastStore, wErr] <;> (intro h; simp [h])
+
+
+theorem writesErr_pre (p : PC) : writesErr p = true → preStore p = true := by
+  cases p <;> simp [writesErr, preStore]
+theorem readsErr_knows (p : PC) : readsErr p = true → knowsSet p = true := by
+  cases p <;> simp [readsErr, knowsSet]
+theorem writesCh_cases (p : PC) : writesCh p = true →
+    holds p = true ∧ (crOf p = some false ∨ ∃ b, esOf p = some b) := by
+  cases p <;> simp [writesCh, holds, crOf, esOf]
+theorem readsCh_cases (p : PC) : readsCh p = true → knowsCh p = true ∨ holds p = true := by
+  cases p <;> simp [readsCh, knowsCh, holds]
+theorem storesStatus_holds (p : PC) : storesStatus p = true → holds p = true := by
+  cases p <;> simp [storesStatus, holds]
+theorem readsStatusPlain_holds (p : PC) : readsStatusPlain p = true → holds p = true := by
+  cases p <;> simp [readsStatusPlain, holds]
+
+
 end Drpc.Signal
